@@ -224,15 +224,15 @@ func check(which, tier string, dump bool) (code int) {
 			}
 		}
 		cov := map[string]any{
-			"packages_loaded":   len(w.All),
-			"module_packages":   len(w.ModulePackages()),
-			"functions":         nfn,
-			"patterns":          pats,
-			"not_decided":       p.NotDecided,
-			"materialised":      matSummary(gens),
-			"trusted_base":      []string{"go/types, go/ssa, go/callgraph (x/tools v0.29.0)", "the Go toolchain that loads the snapshot", "documented contracts of sync, context, net/http, gorilla/websocket, gqlparser"},
-			"checker_cmd":       "./run.sh check " + id + " " + tier,
-			"analysed_tree":     "rsync copy of /repo working tree taken at start of this run",
+			"packages_loaded": len(w.All),
+			"module_packages": len(w.ModulePackages()),
+			"functions":       nfn,
+			"patterns":        pats,
+			"not_decided":     p.NotDecided,
+			"materialised":    matSummary(gens),
+			"trusted_base":    []string{"go/types, go/ssa, go/callgraph (x/tools v0.29.0)", "the Go toolchain that loads the snapshot", "documented contracts of sync, context, net/http, gorilla/websocket, gqlparser"},
+			"checker_cmd":     "./run.sh check " + id + " " + tier,
+			"analysed_tree":   "rsync copy of /repo working tree taken at start of this run",
 		}
 		c := r.Finish(vdir, tier, seed, time.Since(start).Seconds(), findings, cov, p.Assumptions, p.Explanation)
 		if c > worst {
@@ -296,8 +296,8 @@ func writeManifest() {
 		checks = append(checks, chk{
 			PropertyID: id, Quick: "./run.sh check " + id + " quick", Thorough: "./run.sh check " + id + " thorough",
 			Evidence: "evidence/" + id + ".json", Replay: "./run.sh replay {path}", Engine: "gqlcheck",
-			Level: lvl{Category: "other", Text: text, DesignRef: "DESIGN.md §3 " + id},
-			Note:  "Decides only the structural necessary conditions named in the text, on every path of the analysed code; NOT decided: " + p.NotDecided + ". Trusted: go/types, go/ssa, go/callgraph (x/tools v0.29.0), the Go toolchain, documented contracts of the standard library, gorilla/websocket and gqlparser; user code is opaque. " + strings.Join(p.Assumptions, "; "),
+			Level:     lvl{Category: "other", Text: text, DesignRef: "DESIGN.md §3 " + id},
+			Note:      "Decides only the structural necessary conditions named in the text, on every path of the analysed code; NOT decided: " + p.NotDecided + ". Trusted: go/types, go/ssa, go/callgraph (x/tools v0.29.0), the Go toolchain, documented contracts of the standard library, gorilla/websocket and gqlparser; user code is opaque. " + strings.Join(p.Assumptions, "; "),
 			Technique: tech,
 		})
 	}
